@@ -70,6 +70,47 @@ func (s *StructB) Other(a *StructA) int { return a.F + 1 }
 func (s *StructB) MakeA() *StructA      { return &StructA{F: 41, Name: "x"} }
 func (s *StructB) Scale(n int) float64  { return s.V * float64(n) }
 
+// StructE1 / StructE2 have parameters and fields whose types differ only in a defined key / element type: a converter
+// built for one of them must not serve the other.
+type Label string
+type Count int
+type Ints []int
+
+type StructE1 struct {
+	ByName map[string]int
+}
+
+type StructE2 struct {
+	ByLabel map[Label]int
+}
+
+func (s *StructE1) SumS(m map[string]int) int {
+	t := 0
+	for k, v := range m {
+		t += v * len(k)
+	}
+	return t
+}
+func (s *StructE2) SumL(m map[Label]int) int {
+	t := 0
+	for k, v := range m {
+		t += v * (len(k) + 100)
+	}
+	return t
+}
+func (s *StructE2) SumC(m map[string]Count) int {
+	t := 0
+	for _, v := range m {
+		t += int(v) + 1000
+	}
+	return t
+}
+func (s *StructE1) JoinI(xs []int) int { return len(xs)*10 + xs[0] }
+func (s *StructE2) JoinN(xs Ints) int  { return len(xs)*1000 + xs[0] }
+func (s *StructE2) JoinC(xs []Count) int {
+	return len(xs)*100000 + int(xs[0])
+}
+
 // StructC is converted for the first time by the evaluation that receives it.
 type StructC struct {
 	Words []string
@@ -191,6 +232,18 @@ func Scenarios() []Scenario {
 			return []Body{
 				evalBody(`[d.L[0], d.L[1], d.Pick(0), d.Pick(1), d.Pick(2)]`, risor.WithGlobal("d", &StructD{L: []any{1, "s"}, V: 1.5})),
 				evalBody(`[d.L[0], d.L[1], d.Pick(1), d.Pick(2), d.Pick(3)]`, risor.WithGlobal("d", &StructD{L: []any{"t", 2.5}, V: 2.5})),
+			}
+		}},
+		{Name: "map parameters that differ only in a defined key type", Make: func() []Body {
+			return []Body{
+				evalBody(`[e.SumS({"a": 1, "bb": 2}), e.ByName["k"], e.SumS({"ccc": 3})]`, risor.WithGlobal("e", &StructE1{ByName: map[string]int{"k": 5}})),
+				evalBody(`[e.SumL({"a": 1, "bb": 2}), e.ByLabel["k"], e.SumL({"ccc": 3})]`, risor.WithGlobal("e", &StructE2{ByLabel: map[Label]int{"k": 6}})),
+			}
+		}},
+		{Name: "map and slice parameters that differ only in a defined element type", Make: func() []Body {
+			return []Body{
+				evalBody(`[e.SumS({"a": 1}), e.JoinI([1, 2]), e.SumS({"b": 2})]`, risor.WithGlobal("e", &StructE1{})),
+				evalBody(`[e.SumC({"a": 1}), e.JoinC([3, 4, 5]), e.JoinN([6])]`, risor.WithGlobal("e", &StructE2{})),
 			}
 		}},
 		{Name: "one evaluation edits the attribute map of a Go type, another reads it", Make: func() []Body {
